@@ -12,7 +12,7 @@ from ..core import Case
 
 def plan(tier):
     n = 96 if tier == 'quick' else 2400
-    return dict(n_cases=n, shards=16, min_nontrivial=n // 3,
+    return dict(sanitize={'extensions': ['compmech.integrate.integratev', 'compmech.conecyl.clpt.clpt_commons_bc1', 'compmech.conecyl.clpt.clpt_donnell_bc1_nonlinear', 'compmech.conecyl.fsdt.fsdt_commons_bcn', 'compmech.conecyl.fsdt.fsdt_donnell_bcn_nonlinear'], 'n_cases': 48}, n_cases=n, shards=16, min_nontrivial=n // 3,
                 min_tags={'geom:cone': n // 8, 'geom:cylinder': n // 8, 'rule:simps2d': n // 8, 'rule:trapz2d': n // 8, 'clause:threads': n // 4},
                 watchdog_s=2400 if tier == 'quick' else 14000,
                 rule='the 12 non-linear-capable shell models, cylinders and cones up to 45 deg, states with out-of-plane amplitudes 0.05..3 wall thicknesses, '
